@@ -1285,6 +1285,14 @@ func runC16(c *Ctx) {
 			if got.Opts != "" {
 				c.Fail(Failure{Kind: "oracle", Sig: "C16:options-changed", What: "the caller's option structure was modified: " + got.Opts, Case: cs})
 			}
+			if len(call.Refuse) > 0 {
+				// a call whose loader refuses a document and which carries on leaves $refs in place; inside an imported
+				// schema such a $ref reads relative to the importing document from then on (12.9), so what else is
+				// requested, and the shape of the result, depend on Go's map iteration order: the call is in the history
+				// for what it may leave behind, its own outcome is not compared
+				c.Hit("refusing-call-not-compared")
+				continue
+			}
 			alone, ok := isoCache[string(key)]
 			if !ok {
 				var err error
